@@ -845,13 +845,15 @@ impl StringValidator {
     }
 
     pub fn is_valid<S: AsRef<str>>(&self, s: S) -> bool {
+        // JSON Schema string lengths count characters, not bytes.
+        let len = s.as_ref().chars().count();
         self.max_length
             .as_ref()
-            .map_or(true, |max| s.as_ref().len() as u32 <= *max)
+            .map_or(true, |max| len as u64 <= u64::from(*max))
             && self
                 .min_length
                 .as_ref()
-                .map_or(true, |min| s.as_ref().len() as u32 >= *min)
+                .map_or(true, |min| len as u64 >= u64::from(*min))
             && self
                 .pattern
                 .as_ref()
